@@ -16,6 +16,9 @@ structure FreshInv (s : St) : Prop where
   errFresh : ∀ w, s.next ≤ w → s.err.get w = false
   pcw : ∀ t sid w rest, s.pc t = .writing sid w rest → w < s.next
 
+theorem FreshInv.procRel {s : St} (hi : FreshInv s) (b : Bool) (t : Nat) : FreshInv (s.procRel b t) :=
+  ⟨hi.errFresh, hi.pcw⟩
+
 theorem freshInv_init : FreshInv init := by
   constructor
   · intro w _; rfl
@@ -101,11 +104,13 @@ theorem freshInv_step (s s' : St) (a : Act) (ho : OrderInv s)
     rw [AMap.get_set_ne _ _ _ _ (by omega)]
   | flushOk t =>
     obtain ⟨_, _, _, _, _, _, rfl⟩ := step_flushOk h
+    refine FreshInv.procRel ?_ _ _
     exact hi.of (by rw [finish_next]; exact Nat.le_refl _) (fun _ _ => by rw [finish_err]; rfl)
       (fun t' sid' w rest h' => Or.inl (by have h2 := writing_finish h'; exact h2))
   | flushErr t k =>
     obtain ⟨sid, w0, w, _, hw, _, rfl⟩ := step_flushErr h
     have hwn := ho.wrNew w hw
+    refine FreshInv.procRel ?_ _ _
     refine hi.of (by rw [finish_next]; exact Nat.le_refl _) ?_ (fun t' sid' w rest h' => Or.inl (by have h2 := writing_finish h'; exact h2))
     intro w' hw'
     rw [finish_next] at hw'
@@ -119,9 +124,10 @@ theorem freshInv_step (s s' : St) (a : Act) (ho : OrderInv s)
     split <;> rfl
   | flushAfterFail =>
     obtain ⟨_, _, rfl⟩ := step_flushAfterFail h
+    refine FreshInv.procRel ?_ _ _
     exact hi.of (Nat.le_refl _) (fun _ _ => rfl) (fun t' sid' w rest h' => Or.inl (mv _ _ _ rfl _ _ _ _ h'))
   | unlock t =>
-    obtain ⟨_, _, _, rfl⟩ := step_unlock h
+    obtain ⟨_, _, _, _, rfl⟩ := step_unlock h
     exact hi.of (Nat.le_refl _) (fun _ _ => rfl) (fun t' sid' w rest h' => Or.inl (mv _ _ _ rfl _ _ _ _ h'))
   | enqueue t sid =>
     obtain ⟨_, rfl⟩ := step_enqueue h
@@ -130,7 +136,7 @@ theorem freshInv_step (s s' : St) (a : Act) (ho : OrderInv s)
     obtain ⟨_, rfl⟩ := step_enqueueFail h
     exact hi.of (Nat.le_refl _) (fun _ _ => rfl) (fun _ _ _ _ h' => Or.inl h')
   | dequeue =>
-    obtain ⟨_, _, _, _, rfl⟩ := step_dequeue h
+    obtain ⟨_, _, _, _, _, _, rfl⟩ := step_dequeue h
     exact hi.of (Nat.le_refl _) (fun _ _ => rfl) (fun t' sid' w rest h' => Or.inl (mv _ _ _ rfl _ _ _ _ h'))
   | bgConnectOk =>
     obtain ⟨_, rfl⟩ := step_bgConnectOk h
@@ -150,5 +156,23 @@ theorem freshInv_step (s s' : St) (a : Act) (ho : OrderInv s)
   | peerClose c n =>
     obtain ⟨_, rfl⟩ := step_peerClose h
     exact hi.of (Nat.le_refl _) (fun _ _ => rfl) (fun _ _ _ _ h' => Or.inl h')
+  | setCapacity c =>
+    rw [step_setCapacity h]
+    exact hi.of (Nat.le_refl _) (fun _ _ => rfl) (fun _ _ _ _ h' => Or.inl h')
+  | setTimeout n =>
+    rw [step_setTimeout h]
+    exact hi.of (Nat.le_refl _) (fun _ _ => rfl) (fun _ _ _ _ h' => Or.inl h')
+  | tick d =>
+    rw [step_tick h]
+    exact hi.of (Nat.le_refl _) (fun _ _ => rfl) (fun _ _ _ _ h' => Or.inl h')
+  | reconfClose t =>
+    obtain ⟨_, rfl⟩ := step_reconfClose h
+    exact hi.of (Nat.le_refl _) (fun _ _ => rfl) (fun t' sid' w rest h' => Or.inl (mv _ _ _ rfl _ _ _ _ h'))
+  | reconfDialOk t =>
+    obtain ⟨_, rfl⟩ := step_reconfDialOk h
+    exact hi.of (Nat.le_succ _) (fun _ _ => rfl) (fun t' sid' w rest h' => Or.inl (mv _ _ _ rfl _ _ _ _ h'))
+  | reconfDialFail t =>
+    obtain ⟨_, rfl⟩ := step_reconfDialFail h
+    exact hi.of (Nat.le_refl _) (fun _ _ => rfl) (fun t' sid' w rest h' => Or.inl (mv _ _ _ rfl _ _ _ _ h'))
 
 end Tcp
